@@ -7,6 +7,7 @@ pub mod mpdtok;
 pub mod cmdlab;
 pub mod refdec;
 pub mod seg;
+pub mod sim;
 pub mod streamlab;
 pub mod wire;
 pub mod props;
